@@ -168,7 +168,8 @@ def replay_case(rec):
     if sf == "reverse":
         func = "myst_parser.config.main._test_slug_func"
     elif sf == "raise":
-        func = _raising
+        # the model's failing slug function is any exception class a user function may raise
+        func = _RAISING[len(text) % len(_RAISING)]
     try:
         o = observe(text, rec["depth"], items, links, func)
     except Exception as e:  # noqa: BLE001
@@ -185,6 +186,29 @@ def replay_case(rec):
 
 def _raising(title):
     raise ValueError("slug function failed")
+
+
+def _raising_key(title):
+    return {"known title": "known-title"}[title]           # KeyError
+
+
+def _raising_runtime(title):
+    raise RuntimeError("slug function failed")
+
+
+class _SlugError(Exception):
+    pass
+
+
+def _raising_custom(title):
+    raise _SlugError("slug function failed")
+
+
+def _raising_index(title):
+    return title.split("|")[1]                             # IndexError
+
+
+_RAISING = [_raising, _raising_key, _raising_runtime, _raising_custom, _raising_index]
 
 
 def t_leg(ctx, quick):
